@@ -125,6 +125,31 @@ def run(ctx):
         if len(block) != 2 or len(g1) != 3 or len(g2) != 3 or not np.array_equal(np.asarray(v1), np.asarray(v2)):
             ctx.report("a '*' group reused as left operand changed: len(block)=%d, len(block*c)=%d, len(block*d)=%d" % (len(block), len(g1), len(g2)),
                        {"case": p}, found_input=True, signature={"why": "group-reuse"})
+    # (a'') the SAME Python list object used several times in the nesting ([exc, [block] * n], [exc] + [block] * n, a block inside two groups)
+    for i in range(15 if quick else 300):
+        p = prog.gen_program(ctx.rng, maxlen=4, init_p=0.0, global_nmax_p=0.0, kinds=["scalar", "matrix", "shift", "shift"])
+        if len(p["ops"]) < 3:
+            continue
+        try:
+            objs = [prog.build_op(o) for o in p["ops"]]
+            exc, blk = objs[0], list(objs[1:]) + [epg.ADC]
+            if ctx.rng.random() < 0.5:
+                blk = [blk[0], blk[1:]]                      # a nested block
+            k = ctx.rng.randint(2, 4)
+            form = ctx.rng.choice(["inner", "outer", "twice"])
+            nested = [exc, [blk] * k] if form == "inner" else ([exc] + [blk] * k if form == "outer" else [exc, blk, [blk, blk][:k - 1]])
+            flat_blk = epg.functions.flatten_sequence([[o for o in objs[1:]] + [epg.ADC]])
+            flat = [exc] + flat_blk * (k if form != "twice" else 1 + len([blk, blk][:k - 1]))
+            v1 = np.asarray(epg.simulate(nested, init=epg.StateMatrix(density=p["pd"])))
+            v2 = np.asarray(epg.simulate(flat, init=epg.StateMatrix(density=p["pd"])))
+            t1, t2 = np.asarray(epg.get_adc_times(nested)), np.asarray(epg.get_adc_times(flat))
+        except Exception as e:
+            ctx.report("sequence with a reused sub-list raised %s: %s" % (type(e).__name__, str(e)[:200]), {"case": p}, found_input=True, signature={"raises": type(e).__name__, "site": "list-reuse"})
+            continue
+        ctx.count(("listreuse", repr(p), form, k), nontrivial=True)
+        if v1.shape != v2.shape or not np.array_equal(v1, v2) or t1.shape != t2.shape:
+            ctx.report("a sub-list object used %d times (%s) does not behave like its flat repetition: %d acquisitions instead of %d" % (k, form, v1.shape[0], v2.shape[0]),
+                       {"case": p, "form": form, "k": k}, found_input=True, signature={"why": "list-reuse"})
     # (b) '@' chains on synthetic operators: combined arrays vs the model, and effect vs sequential application
     for i in range(60 if quick else 2000):
         n = ctx.rng.randint(2, 4)
@@ -358,6 +383,38 @@ def real_chains(ctx, n):
         except Exception as e:
             ctx.report("'@' on real operators raised %s: %s" % (type(e).__name__, str(e)[:200]), {"shape": shp}, found_input=True, signature={"site": "@-real", "why": "raises"})
             continue
+        # scalar @ scalar with parameter arrays on a different number of axes (epgpy appends missing axes, numpy prepends)
+        try:
+            n1, n2 = ctx.rng.choice([(2, 2), (3, 3), (2, 3), (3, 2)])
+            e1 = epg.E(4.0, 900.0, np.linspace(30, 60, n1), order1="T2")                     # T2 on axis 0
+            e2 = epg.E(3.0, np.linspace(500, 1500, n2).reshape(1, n2), 45.0, order1="T1")     # T1 on axis 1
+            ee = e1 @ e2
+            want = (n1, n2)
+            smx = epg.S(1)(epg.T(35.0, 20.0)(epg.StateMatrix(shape=want)))
+            one, seq = ee(smx), e2(e1(smx))
+            bad = tuple(ee.shape) != want or np.abs(np.array(one.states) - np.array(seq.states)).max() > 1e-12
+            for v in ("T1", "T2"):
+                bad = bad or v not in one.order1 or np.abs(np.array(one.order1[v].states) - np.array(seq.order1[v].states)).max() > 1e-12
+            if bad:
+                ctx.report("E(T2 on axis 0) @ E(T1 on axis 1): shape %s (expected %s) or states/partials differ from sequential application" % (tuple(ee.shape), want),
+                           {"shape": [n1, n2]}, found_input=True, signature={"site": "@-real", "why": "scalar-mixed-ndim"})
+        except Exception as e:
+            ctx.report("E(T2 on axis 0) @ E(T1 on axis 1) raised %s: %s" % (type(e).__name__, str(e)[:200]), {"shape": [n1, n2]}, found_input=True,
+                       signature={"site": "@-real", "why": "scalar-mixed-ndim-raises"})
+        # a member WITH a recovery term and fewer batch axes than the other member, both orders (E @ T, T @ E)
+        try:
+            n1, n2 = ctx.rng.choice([(2, 2), (3, 3), (2, 3), (3, 2)])
+            er = epg.E(4.0, np.linspace(400, 1200, n1), 50.0)                               # T1 on axis 0, recovery term
+            tr = epg.T(np.linspace(20, 80, n2).reshape(1, n2), 15.0)                        # alpha on axis 1
+            smx = epg.S(1)(epg.T(35.0, 20.0)(epg.StateMatrix(shape=(n1, n2))))
+            for nm, comb, seqf in (("E @ T", er @ tr, lambda x: tr(er(x))), ("T @ E", tr @ er, lambda x: er(tr(x)))):
+                one, seq = comb(smx), seqf(smx)
+                if tuple(comb.shape) != (n1, n2) or np.abs(np.array(one.states) - np.array(seq.states)).max() > 1e-12:
+                    ctx.report("%s with the recovery term on fewer axes: shape %s (expected %s) or states differ from sequential application" % (nm, tuple(comb.shape), (n1, n2)),
+                               {"shape": [n1, n2], "order": nm}, found_input=True, signature={"site": "@-real", "why": "recovery-rank"})
+        except Exception as e:
+            ctx.report("E(T1 on axis 0) @ T(alpha on axis 1) raised %s: %s" % (type(e).__name__, str(e)[:200]), {"shape": [n1, n2]}, found_input=True,
+                       signature={"site": "@-real", "why": "recovery-rank-raises"})
         exp_shape = epg.common.broadcast_shapes(a.shape, b.shape, append=True)
         if tuple(ab.shape) != tuple(exp_shape) or abs(ab.duration - 1.5) > 0 or abs(cd.duration - 2.0) > 0:
             ctx.report("combined operator shape/duration wrong: %s %s" % (ab.shape, ab.duration), {"shape": shp}, found_input=True, signature={"site": "@-real", "why": "shape-duration"})
